@@ -1,6 +1,7 @@
 package harness
 
 import (
+	"math/big"
 	"strconv"
 	"strings"
 	"unicode/utf8"
@@ -243,7 +244,17 @@ func corruptPath(t *rapid.T, root V, segs []tfSeg) (string, string) {
 		case "non_numeric_index":
 			s[j].text = []string{"x", s[j].text + "x", "1e1", " 1", "1 ", "one", "½"}[drawInt(t, 0, 6, "nn")]
 		case "index_overflow":
-			s[j].text = "1" + strings.Repeat("0", 20)
+			// beyond the int range; some of them land on an existing element when the digits are
+			// accumulated modulo 2^64 (2^64 + k, 3*2^64 + k) or modulo 2^32
+			k := 0
+			if n > 0 {
+				k = drawIdx(t, n, "wrapto")
+			}
+			two64 := new(big.Int).Lsh(big.NewInt(1), 64)
+			s[j].text = []string{"1" + strings.Repeat("0", 20),
+				new(big.Int).Add(two64, big.NewInt(int64(k))).String(),
+				new(big.Int).Add(new(big.Int).Mul(two64, big.NewInt(3)), big.NewInt(int64(k))).String(),
+				"9223372036854775808", strconv.Itoa(1<<32 + k), new(big.Int).Add(new(big.Int).Lsh(big.NewInt(1), 63), big.NewInt(int64(k))).String()}[drawInt(t, 0, 5, "ovf")]
 		case "noncanonical_index":
 			s[j].text = []string{"0" + s[j].text, "+" + s[j].text, "0x" + s[j].text, "-0", "0b1", "1_0", "00"}[drawInt(t, 0, 6, "nc")]
 		}
